@@ -647,6 +647,8 @@ class BlockNormalizer:
         out = self.n14_attribute_alias(out, owner, fld)
         out = self.n20_worklist_loop(out)
         out = self.n21_unflatten_pairs(out)
+        out = self.n28_enumerate_to_index(out)
+        out = self.n29_optional_value_guard(out)
         if len(out) != len(stmts) or any(a is not b for a, b in zip(out, stmts)):
             self.changed = True
             return out if out else [ast.Pass()]
@@ -1241,6 +1243,74 @@ class BlockNormalizer:
                 del out[j]
             self.scope.recount()
             continue
+        return out
+
+    def n28_enumerate_to_index(self, stmts):
+        """for i, v in enumerate(X[a:]): BODY   ->   for i in range(len(X[a:])): BODY[v := X[i + a]]      (a >= 0 constant or absent)
+        for a simple X whose items BODY does not rebind, and i / v not assigned in BODY: the elements are read by position."""
+        out = list(stmts)
+        for k, lp in enumerate(out):
+            if not (isinstance(lp, ast.For) and not lp.orelse and isinstance(lp.iter, ast.Call) and isinstance(lp.iter.func, ast.Name) and lp.iter.func.id == "enumerate" and len(lp.iter.args) == 1 and not lp.iter.keywords
+                    and isinstance(lp.target, ast.Tuple) and len(lp.target.elts) == 2 and all(isinstance(x, ast.Name) for x in lp.target.elts)):
+                continue
+            src = lp.iter.args[0]
+            base, off = src, 0
+            if isinstance(src, ast.Subscript) and isinstance(src.slice, ast.Slice) and src.slice.upper is None and src.slice.step is None and isinstance(src.slice.lower, ast.Constant) and isinstance(src.slice.lower.value, int) and src.slice.lower.value >= 0:
+                base, off = src.value, src.slice.lower.value
+            elif isinstance(src, ast.Subscript) and isinstance(src.slice, ast.Slice) and src.slice.lower is None and src.slice.step is None and src.slice.upper is not None:
+                base, off = src.value, 0  # a prefix X[:b]: element i is X[i]
+            elif isinstance(src, ast.Subscript):
+                continue
+            else:
+                continue  # plain enumerate(X) is already the canonical way of numbering the levels
+            if not (isinstance(base, (ast.Name, ast.Attribute)) and _is_simple_expr(base)) or not any(isinstance(x, ast.Attribute) and x.attr in ("levels", "_levels") for x in ast.walk(base)):
+                continue  # only used for the tree's level lists, whose positions the rules reason about
+            i_, v_ = lp.target.elts[0].id, lp.target.elts[1].id
+            stored = set()
+            for st in lp.body:
+                stored |= _names_stored(st)
+            root = base
+            while isinstance(root, ast.Attribute):
+                root = root.value
+            rebinding = any(isinstance(x, ast.Subscript) and isinstance(x.ctx, (ast.Store, ast.Del)) and _u(x.value) == _u(base) for st in lp.body for x in ast.walk(st))
+            if i_ in stored or v_ in stored or rebinding or i_ == v_:
+                continue
+            idx = ast.Name(id=i_, ctx=ast.Load()) if off == 0 else ast.BinOp(left=ast.Name(id=i_, ctx=ast.Load()), op=ast.Add(), right=ast.Constant(value=off))
+            elem = ast.Subscript(value=copy.deepcopy(base), slice=idx, ctx=ast.Load())
+            new_body = [_subst(st, {v_: elem}) for st in lp.body]
+            new = ast.For(target=ast.Name(id=i_, ctx=ast.Store()), iter=ast.Call(func=ast.Name(id="range", ctx=ast.Load()), args=[ast.Call(func=ast.Name(id="len", ctx=ast.Load()), args=[src], keywords=[])], keywords=[]), body=new_body, orelse=[])
+            out[k] = ast.fix_missing_locations(ast.copy_location(new, lp))
+            if self.scope is not None:
+                self.scope.recount()
+        return out
+
+    def n29_optional_value_guard(self, stmts):
+        """v = E if C else None; if v is not None: BODY   ->   if C: v = E; BODY
+        when E is an arithmetic expression / literal (never None) and v is not used after the `if` nor in an else branch."""
+        if self.scope is None:
+            return stmts
+        out = list(stmts)
+        i = 0
+        while i + 1 < len(out):
+            a, g = out[i], out[i + 1]
+            if (isinstance(a, ast.Assign) and len(a.targets) == 1 and isinstance(a.targets[0], ast.Name) and isinstance(a.value, ast.IfExp) and isinstance(g, ast.If) and not g.orelse):
+                v = a.targets[0].id
+                e, c, none_first = a.value.body, a.value.test, False
+                if isinstance(a.value.body, ast.Constant) and a.value.body.value is None:
+                    e, none_first = a.value.orelse, True
+                elif not (isinstance(a.value.orelse, ast.Constant) and a.value.orelse.value is None):
+                    i += 1
+                    continue
+                cond = _negate(c) if none_first else c
+                never_none = isinstance(e, (ast.BinOp, ast.UnaryOp, ast.Tuple, ast.List)) or (isinstance(e, ast.Constant) and e.value is not None) or (isinstance(e, ast.Call) and _u(e.func) in ("len", "int", "float", "max", "min", "sum", "abs"))
+                is_guard = isinstance(g.test, ast.Compare) and len(g.test.ops) == 1 and isinstance(g.test.ops[0], ast.IsNot) and _u(g.test.left) == v and isinstance(g.test.comparators[0], ast.Constant) and g.test.comparators[0].value is None
+                uses_in_if = sum(1 for x in ast.walk(g) if isinstance(x, ast.Name) and x.id == v)
+                if never_none and is_guard and _is_simple_expr(c) and self.scope.stores.get(v, 0) == 1 and self.scope.loads.get(v, 0) == uses_in_if:
+                    new_if = ast.If(test=cond, body=[ast.copy_location(ast.Assign(targets=[ast.Name(id=v, ctx=ast.Store())], value=e), a)] + g.body, orelse=[])
+                    out[i:i + 2] = [ast.fix_missing_locations(ast.copy_location(new_if, g))]
+                    self.scope.recount()
+                    continue
+            i += 1
         return out
 
     def n11_coalesce_alias(self, stmts):
@@ -2361,6 +2431,67 @@ def fold_generator_helpers(tree: ast.Module) -> bool:
     return changed
 
 
+def ungroup_by_key(tree: ast.Module) -> bool:
+    """N25: G = {}; for x in ITER: G.setdefault(K(x), []).append(x)  ...  G.get(k, [])
+        ->  ... [x for x in ITER if K(x) == k]
+    when G is used for nothing else, ITER is a simple expression over names the function never rebinds, and K only reads x:
+    each group is the sub-list of ITER (in ITER's order) whose key equals k."""
+    changed = False
+    for f in [n for n in ast.walk(tree) if isinstance(n, (ast.FunctionDef, ast.AsyncFunctionDef))]:
+        sc = _ScopeCounts(f)
+        for i, st in enumerate(list(f.body)):
+            if not (isinstance(st, (ast.Assign, ast.AnnAssign)) and isinstance(st.targets[0] if isinstance(st, ast.Assign) else st.target, ast.Name) and isinstance(getattr(st, "value", None), ast.Dict) and not st.value.keys):
+                continue
+            G = (st.targets[0] if isinstance(st, ast.Assign) else st.target).id
+            if sc.stores.get(G, 0) != 1 or i + 1 >= len(f.body):
+                continue
+            lp = f.body[i + 1]
+            if not (isinstance(lp, ast.For) and not lp.orelse and isinstance(lp.target, ast.Name) and len(lp.body) == 1 and isinstance(lp.body[0], ast.Expr) and isinstance(lp.body[0].value, ast.Call)):
+                continue
+            c = lp.body[0].value
+            x = lp.target.id
+            ok = (isinstance(c.func, ast.Attribute) and c.func.attr == "append" and len(c.args) == 1 and isinstance(c.args[0], ast.Name) and c.args[0].id == x
+                  and isinstance(c.func.value, ast.Call) and isinstance(c.func.value.func, ast.Attribute) and c.func.value.func.attr == "setdefault" and isinstance(c.func.value.func.value, ast.Name) and c.func.value.func.value.id == G
+                  and len(c.func.value.args) == 2 and isinstance(c.func.value.args[1], ast.List) and not c.func.value.args[1].elts)
+            if not ok:
+                continue
+            K = c.func.value.args[0]
+            it = lp.iter
+            if not (_is_simple_expr(it) or (isinstance(it, ast.Call) and isinstance(it.func, ast.Attribute) and it.func.attr in ("keys", "values") and not it.args and _is_simple_expr(it.func.value))):
+                continue
+            if not _is_simple_expr(K) or (_names_loaded(K) - {x}) & {n_ for n_ in _names_loaded(K) if sc.stores.get(n_, 0) > 0 and n_ != x}:
+                continue
+            if any(sc.stores.get(n_, 0) > 0 and n_ not in sc.params for n_ in _names_loaded(it)) or any(sc.stores.get(n_, 0) > 1 for n_ in _names_loaded(it)):
+                continue
+            # every other use of G must be G.get(k, [])
+            uses = []
+            bad = False
+            inside_loop = {id(y) for y in ast.walk(lp)}
+            for y in ast.walk(f):
+                if isinstance(y, ast.Call) and isinstance(y.func, ast.Attribute) and y.func.attr == "get" and isinstance(y.func.value, ast.Name) and y.func.value.id == G and len(y.args) == 2 and isinstance(y.args[1], ast.List) and not y.args[1].elts and id(y) not in inside_loop:
+                    uses.append(y)
+            n_loads = sum(1 for y in ast.walk(f) if isinstance(y, ast.Name) and y.id == G and isinstance(y.ctx, ast.Load))
+            if n_loads != len(uses) + 1 or not uses:
+                continue
+            use_ids = {id(u) for u in uses}
+
+            class R(ast.NodeTransformer):
+                def visit_Call(self, node):
+                    self.generic_visit(node)
+                    if id(node) in use_ids:
+                        comp = ast.ListComp(elt=ast.Name(id=x, ctx=ast.Load()), generators=[ast.comprehension(target=ast.Name(id=x, ctx=ast.Store()), iter=copy.deepcopy(it), ifs=[ast.Compare(left=copy.deepcopy(K), ops=[ast.Eq()], comparators=[node.args[0]])], is_async=0)])
+                        return ast.fix_missing_locations(ast.copy_location(comp, node))
+                    return node
+            for k_, b_ in enumerate(f.body):
+                if k_ > i + 1:
+                    f.body[k_] = R().visit(b_)
+            del f.body[i:i + 2]
+            ast.fix_missing_locations(f)
+            changed = True
+            break
+    return changed
+
+
 def normalize_module(tree: ast.Module, max_rounds: int = 6, returns_arg: dict | None = None, foreign_refs: set | None = None, foreign_defs: set | None = None) -> ast.Module:
     for _ in range(max_rounds):
         bn = BlockNormalizer()
@@ -2376,6 +2507,8 @@ def normalize_module(tree: ast.Module, max_rounds: int = 6, returns_arg: dict | 
         if expand_kwargs_dicts(tree):
             bn.changed = True
         if unfold_reduce(tree):
+            bn.changed = True
+        if ungroup_by_key(tree):
             bn.changed = True
         if unnest_self_calls(tree):
             bn.changed = True
